@@ -183,6 +183,9 @@ func c13OpFF(r int, o *xt.T) *xt.T              { return xt.N(xt.LI(5), xt.LI(r)
 func c13OpFetch(objs []*xt.T, upd []*xt.T) *xt.T {
 	return xt.N(xt.LI(6), xt.N(objs...), xt.N(upd...))
 }
+func c13OpRealFetch(objs []*xt.T, upd []*xt.T) *xt.T {
+	return xt.N(xt.LI(8), xt.N(objs...), xt.N(upd...))
+}
 func c13OpPrune() *xt.T                       { return xt.N(xt.LI(7)) }
 func c13Upd(r int, c *xt.T, force bool) *xt.T { return xt.N(xt.LI(r), c, xt.Bool(force)) }
 func c13PBlock(b int) *xt.T                   { return xt.N(xt.LI(0), xt.LI(b)) }
@@ -277,7 +280,15 @@ func (cb *c13CB) orphanDAG(dag [][]int, tables []c13Rows, nn func() int) []*xt.T
 }
 
 func (cb *c13CB) emit(tag string, nontrivial bool, op, op2 *xt.T, workers int, cli bool) {
-	c := xt.N(cb.specs, cb.setup, op, op2, xt.N(xt.LI(workers), xt.Bool(cli)))
+	cb.emitScn(tag, nontrivial, op, op2, workers, cli, nil)
+}
+
+func (cb *c13CB) emitScn(tag string, nontrivial bool, op, op2 *xt.T, workers int, cli bool, scn *xt.T) {
+	flags := xt.N(xt.LI(workers), xt.Bool(cli))
+	if scn != nil {
+		flags.Add(scn)
+	}
+	c := xt.N(cb.specs, cb.setup, op, op2, flags)
 	cb.g.cases = append(cb.g.cases, Case{Tag: tag, Nontrivial: nontrivial, C: c})
 	cb.g.ctx.Count("cases_" + tag)
 	cb.g.ctx.Count(fmt.Sprintf("op_%s", c13OpName(op.Kids[0].N)))
@@ -572,6 +583,106 @@ func genC13(ctx *Ctx) []Case {
 		cb, r1, r2, _ = mk()
 		op = c13OpFetch(cb.senderSeq([]*xt.T{r1}, nil), []*xt.T{c13Upd(10, r2, false)})
 		cb.emit("fetch-hostile", true, op, op, 1, false)
+	}
+
+	// ---- the real fetch.Fetch against the in-process reference server, on the recording stores:
+	// every crash position and every single failing write (object AND ref writes), re-run with
+	// healthy stores. Witness of the seeded defect "return before saveFetchedRefs when nothing was
+	// fetched": the interrupted run stored the last commit but not the ref.
+	{
+		mk := func() (*c13CB, *xt.T, *xt.T, *xt.T) {
+			cb := g.newCase()
+			tA, tB, tB2 := cb.table(rA), cb.table(rB), cb.table(rB2)
+			r1 := c13MkCid(tA, nil, nn())
+			r2 := c13MkCid(tB, []*xt.T{r1}, nn())
+			r3 := c13MkCid(tB2, []*xt.T{r2}, nn())
+			return cb, r1, r2, r3
+		}
+		cb, r1, r2, r3 := mk()
+		seq := cb.senderSeq([]*xt.T{r1, r2, r3}, nil)
+		op := c13OpRealFetch(seq, []*xt.T{c13Upd(10, r3, false)})
+		cb.emit("fetch-real", true, op, op, 1, false)
+		// all objects arrived, the ref did not: the re-run has nothing to fetch and must still write it
+		cb, r1, r2, r3 = mk()
+		seq = cb.senderSeq([]*xt.T{r1, r2, r3}, nil)
+		op = c13OpRealFetch(seq, []*xt.T{c13Upd(10, r3, false)})
+		cb.crashed(c13OpFetch(seq, []*xt.T{c13Upd(10, r3, false)}), c13SeqWrites(seq))
+		cb.emit("fetch-real", true, op, op, 1, false)
+		// incremental (every local ref commit is known to the server, so r1 is acknowledged as common)
+		cb, r1, r2, r3 = mk()
+		s1 := cb.senderSeq([]*xt.T{r1}, nil)
+		cb.step(c13OpFetch(s1, []*xt.T{c13Upd(10, r1, false)}))
+		seq = cb.senderSeq([]*xt.T{r2, r3}, []*xt.T{r1})
+		op = c13OpRealFetch(seq, []*xt.T{c13Upd(10, r3, false)})
+		cb.emit("fetch-real", true, op, op, 1, false)
+		// two branches, one object phase, two ref writes (a failing first ref write does not stop the second)
+		cb, r1, r2, r3 = mk()
+		seq = cb.senderSeq([]*xt.T{r1, r2, r3}, nil)
+		op = c13OpRealFetch(seq, []*xt.T{c13Upd(10, r2, false), c13Upd(11, r3, false)})
+		cb.emit("fetch-real", true, op, op, 1, false)
+		// non-fast-forward of the tracking ref: rejected, then forced
+		for _, force := range []bool{false, true} {
+			cb, r1, r2, r3 = mk()
+			tD := cb.table(rD)
+			x := c13MkCid(tD, []*xt.T{r1}, nn())
+			s1 := cb.senderSeq([]*xt.T{r1, x}, nil)
+			cb.step(c13OpFetch(s1, []*xt.T{c13Upd(10, x, false)}))
+			// the newest local ref commit x is unknown to the server: ClosedSetsFinder.findCommons stops at
+			// the first have it cannot find, nothing is common, the whole history is sent again
+			seq = cb.senderSeq([]*xt.T{r1, r2, r3}, nil)
+			op = c13OpRealFetch(seq, []*xt.T{c13Upd(10, r3, force)})
+			cb.emit("fetch-real", true, op, op, 1, false)
+		}
+		nreal := 3
+		if thorough {
+			nreal = 30
+		}
+		for i := 0; i < nreal; i++ {
+			cb := g.newCase()
+			k := 1 + ctx.Pick(4)
+			var chain []*xt.T
+			for j := 0; j < k; j++ {
+				var ps []*xt.T
+				if j > 0 {
+					ps = []*xt.T{chain[j-1]}
+				}
+				chain = append(chain, c13MkCid(cb.table(pool[1+ctx.Pick(len(pool)-1)]), ps, nn()))
+			}
+			have := ctx.Pick(k) // the first `have` commits are already here
+			var common []*xt.T
+			if have > 0 {
+				s1 := cb.senderSeq(chain[:have], nil)
+				cb.step(c13OpFetch(s1, []*xt.T{c13Upd(10, chain[have-1], false)}))
+				common = []*xt.T{chain[have-1]}
+			}
+			seq := cb.senderSeq(chain[have:], common)
+			op := c13OpRealFetch(seq, []*xt.T{c13Upd(10, chain[k-1], false)})
+			if ctx.Pick(3) == 0 {
+				cb.crashed(c13OpFetch(seq, []*xt.T{c13Upd(10, chain[k-1], false)}), ctx.Pick(c13SeqWrites(seq)+1))
+			}
+			cb.emit("fetch-real", true, op, op, 1, false)
+		}
+	}
+
+	// ---- CLI histories with shallow commits (wrgl pull / fetch --depth, then wrgl merge in every ff mode)
+	{
+		type scn struct{ n, depth, mode, via int }
+		var scns []scn
+		for mode := 0; mode < 4; mode++ {
+			scns = append(scns, scn{4, 1, mode, 0})
+		}
+		scns = append(scns, scn{3, 1, 0, 2}, scn{4, 2, 1, 2}, scn{3, 1, 0, 1}, scn{4, 1, 1, 1}, scn{4, 2, 2, 1})
+		if thorough {
+			for i := 0; i < 24; i++ {
+				scns = append(scns, scn{3 + ctx.Pick(3), 1 + ctx.Pick(2), ctx.Pick(4), ctx.Pick(3)})
+			}
+		}
+		for _, sc := range scns {
+			cb := g.newCase()
+			ts := xt.N(cb.table(rA), cb.table(rA2), cb.table(rD), cb.table(rB))
+			s := xt.N(xt.LI(sc.n), xt.LI(sc.depth), xt.LI(sc.mode), xt.LI(sc.via), ts)
+			cb.emitScn("cli-shallow", true, c13OpPrune(), c13OpPrune(), 1, false, s)
+		}
 	}
 
 	// ---- prune
